@@ -104,8 +104,10 @@ PLAIN_KNOWN = ["UInt8", "UInt16", "UInt32", "UInt64", "UInt128", "UInt256", "Int
                "Double", "Boolean", "Dec", "Int", "INT"]
 PLAIN_UNKNOWN = ["LineString", "MultiLineString", "Geometry", "BIGINT", "TINYINT", "IntervalDay", "MyType",
                  "Varchar", "TEXT", "_t1", "T2x"]
-ELEM_PLAIN = ["a", "b", "c", "id", "x1", "_f", "name", "value", "key", "ts", "n_1", "Index", "first", "k2", "V"]
-ELEM_QUOTED = ["a b", "x-y", "1st", "a.b", "sp ace d", "q?", "é", "имя", "日本", "naïve", "x1é", "ſ", "a b", "٣"]      # need backticks: not wf_ty, model-vs-code only
+ELEM_PLAIN = ["a", "b", "c", "id", "x1", "_f", "name", "value", "key", "ts", "n_1", "Index", "first", "k2", "V",
+              # element names that are clause keywords of SELECT (a type parameter list is not a select list)
+              "from", "to", "where", "limit", "offset", "format", "settings", "into", "having", "order", "group", "by", "with", "final", "sample"]
+ELEM_QUOTED = ["a b", "x-y", "1st", "a.b", "sp ace d", "q?", "é", "имя", "日本", "naïve", "x1é", "ſ", "a b", "٣", "a$b", "$x", "x1$", "a$b c"]      # need backticks: not wf_ty, model-vs-code only
 ELEM_TYPELIKE = ["date", "time", "string", "Int8", "uuid", "point", "Array", "interval", "bool", "json"]
 
 PARENTS = ["Array", "Nullable", "LowCardinality", "Map", "Tuple", "TupleNamed", "Variant"]
